@@ -1016,6 +1016,16 @@ def _fresh_name(gen, container, kind):
 
 def g_add_valid(self):
     r = self.rng.random()
+    if r < 0.06:
+        # values arrive through a merge: another Property of the same dtype is merged in
+        # (leniently, so that nothing but the number of values could be objected to)
+        props = [p for p in self.props() if p.dtype in SAFE_VALUES and len(p.values) < 6]
+        p = self.pick(props)
+        if p is not None:
+            others = [q for q in props if q is not p and q.dtype == p.dtype and len(q.values)]
+            q = self.pick(others)
+            if q is not None:
+                return {"op": "merge", "t": self.ref(p), "x": self.ref(q), "strict": False, "valid": True}
     if r < 0.35:
         props = [p for p in self.props() if p.dtype in SAFE_VALUES and len(p.values) < 6]
         p = self.pick(props)
